@@ -51,6 +51,7 @@ class Spec:
         self.entry_modes = entry_modes
         self.sig_names = None               # configurations named in signatures / cached records (None = all)
         self.quick_grid, self.quick_corpus = 700, 250      # size of the seed-selected slice of the quick tier
+        self.extra_items = []               # (name, ast) programs of the check's own, always included
 
 
 def load_corpus(spec):
@@ -211,7 +212,7 @@ def run(spec, tier, replay=None, extra=None):
     runner = Runner(spec, os.path.join(bindir, "hjs"), int(os.environ.get("C01_TLC_WORKERS", "8")))
     rng = random.Random(vlib.seed())
     grid, corpus = select_items(spec, tier, rng)
-    items = [(n, a) for n, a in grid] + [(n, a) for n, a in corpus]
+    items = [(n, a) for n, a in grid] + [(n, a) for n, a in corpus] + list(spec.extra_items)
     known = load_expected(spec)
     t0 = time.time()
     tot = {"oom": 0, "nontrivial": 0, "evaluations": 0, "c01_class": 0, "agree_model": 0, "compared": 0}
@@ -241,7 +242,17 @@ def run(spec, tier, replay=None, extra=None):
             continue
         again, _ = runner.compare([(name, ast)])
         if record(again.get(0, {}), spec) != rec:
-            raise vlib.ToolError("%s: difference of %s did not reproduce" % (spec.pid, name))
+            # not the same difference twice: the observation depends on something outside the program (allocation
+            # addresses, collection timing).  It counts if the program differs from its reference again in any of
+            # three more runs; a difference that never comes back is a tool problem, not a verdict.
+            seen = [again.get(0)] + [runner.compare([(name, ast)])[0].get(0) for _ in range(3)]
+            if not any(seen):
+                raise vlib.ToolError("%s: difference of %s did not reproduce" % (spec.pid, name))
+            ck.failure(json.dumps({"program": name, "unstable": True, "src": jscore.render(c01.canonical(ast))[:400]}, sort_keys=True),
+                       {"program": name, "src": jscore.render(ast), "first_diff": rec,
+                        "later_diffs": [record(x, spec) if x else None for x in seen],
+                        "note": "the same program gives different observations from run to run under the same configuration"})
+            continue
         mode = sorted(d)[0]
         cn = sorted(d[mode]["cfg"])[0]
         small = ast
@@ -301,7 +312,7 @@ def vet(spec, tier="thorough"):
     """recompute corpus/<dir>/expected_failures.json (the failing programs of the unchanged tree with shrunk signatures)"""
     bindir = os.path.join(vlib.HARNESS, "target", "debug") if os.environ.get("C01_NO_BUILD") else vlib.build_harness(["hjs"])
     runner = Runner(spec, os.path.join(bindir, "hjs"), 6)
-    items = [(n, a) for n, a in jscore.grids(tier, spec.families)] + load_corpus(spec)
+    items = [(n, a) for n, a in jscore.grids(tier, spec.families)] + load_corpus(spec) + list(spec.extra_items)
     fails = []
     for b0 in range(0, len(items), 1500):
         part = items[b0:b0 + 1500]
